@@ -367,6 +367,7 @@ func TestVerifC14_PQLRandom(t *testing.T) {
 		var touched []uint64
 		var log []string
 		shrunk, cleared := false, false
+		midReads := 0
 		for i := 0; i < nops; i++ {
 			kind := rapid.SampledFrom([]string{"set", "set", "import", "import", "clear"}).Draw(t, fmt.Sprintf("op%d", i))
 			switch kind {
@@ -415,6 +416,13 @@ func TestVerifC14_PQLRandom(t *testing.T) {
 				delete(mod.Vals, col)
 				cleared = true
 				log = append(log, fmt.Sprintf("ImportValueClear(%d)", col))
+			}
+			// reads between the writes (the next write then meets a warm row cache)
+			if len(used) > 0 && rapid.Bool().Draw(t, fmt.Sprintf("read%d", i)) {
+				w := what + " after " + fmt.Sprint(log)
+				vc14sCheckRanges(t, m, f, mod, []int64{used[len(used)-1], 0}, nil, w)
+				vc14sCheckAggs(t, m, f, mod, []vc14sFilter{{Name: "none"}}, [][]uint64{nil}, w)
+				midReads++
 			}
 		}
 		what = what + " after " + fmt.Sprint(log)
@@ -491,7 +499,7 @@ func TestVerifC14_PQLRandom(t *testing.T) {
 		tie, negOnly := vc14sCheckAggs(t, m, f, mod, filters, [][]uint64{shards, rev}, what)
 		c.Class("depth:%02d-%02d", maxDepth/8*8, maxDepth/8*8+7)
 		c.ClassIf(beyond, "predicateBeyondBitDepthInsideBounds").ClassIf(tie, "extremeTiedAcrossShards").ClassIf(negOnly, "negativeOnlySelection")
-		c.ClassIf(shrunk, "overwriteShrinksValue").ClassIf(cleared, "cleared")
+		c.ClassIf(shrunk, "overwriteShrinksValue").ClassIf(cleared, "cleared").ClassIf(midReads > 0, "readsBetweenWrites")
 		c.NT(beyond || tie || negOnly || shrunk)
 		c.Sample(map[string]interface{}{"bounds": []int64{lo, hi}, "ops": log, "shardOrder": shards})
 	})
